@@ -309,7 +309,7 @@ pub fn def() -> PropDef {
     PropDef {
         id: "C05",
         level: "exploration",
-        rule: "input = valid image (synthesized foreign layout incl. DIFAT sectors, or written by the library from a generated history; V3/V4) x 1-4 corruptions from the catalogue (every header field, DIFAT cells, FAT cells by role, MiniFAT cells, every directory-entry field by entry class, tail->head cycles, truncation, extension, sector swaps, raw bytes; value classes 0, 1, +-1, sector count +-1, FREESECT/ENDOFCHAIN/FATSECT/DIFSECT/FFFFFFFB/FFFFFFFA, 2^31, heads of other chains, size classes around 64/4096/sector multiples and 2^32/2^63/2^64); both open modes are tried and on every accepted input a generated read-only script runs (walk, listings, per-entry queries, open_stream on listed streams with read/read_exact/fill_buf/seek incl. i64/u64 extremes/bounded read_to_end; walk() and read_root_storage() iterators kept alive and advanced around handle reads and lookups) plus a fixed default script; finally handles opened with a 1024-byte buffer on up to six listed streams are used after their CompoundFile has been dropped. Oracle: no panic; no request for the file's lock by a thread that already holds it in a conflicting mode (always-on lock observer: such a call would block for ever); worker CPU budget (20 CPU-s per case, confirmed alone under RLIMIT_CPU); peak live heap <= 8 MiB + 4096 x input length (counting allocator; oversized requests abort the worker and are confirmed alone under RLIMIT_AS). Non-trivial = >=1 corruption applied and permissive open accepted the input; distinct = distinct case JSON. Thorough tier adds a libFuzzer campaign on the same oracle.",
+        rule: "input = valid image (synthesized foreign layout incl. DIFAT sectors, or written by the library from a generated history; V3/V4) x 1-4 corruptions from the catalogue (every header field, DIFAT cells, FAT cells by role, MiniFAT cells, every directory-entry field by entry class, tail->head cycles, truncation, extension, sector swaps, raw bytes, and the composite 'file extended beyond FAT coverage + a DIFAT cell / DIFAT chain link / first directory or MiniFAT sector / stream start pointing into the uncovered tail'; value classes 0, 1, +-1, sector count +-1, FREESECT/ENDOFCHAIN/FATSECT/DIFSECT/FFFFFFFB/FFFFFFFA, 2^31, heads of other chains, size classes around 64/4096/sector multiples and 2^32/2^63/2^64); both open modes are tried and on every accepted input a generated read-only script runs (walk, listings, per-entry queries, open_stream on listed streams with read/read_exact/fill_buf/seek incl. i64/u64 extremes/bounded read_to_end; walk() and read_root_storage() iterators kept alive and advanced around handle reads and lookups) plus a fixed default script; finally handles opened with a 1024-byte buffer on up to six listed streams are used after their CompoundFile has been dropped. Oracle: no panic; no request for the file's lock by a thread that already holds it in a conflicting mode (always-on lock observer: such a call would block for ever); worker CPU budget (20 CPU-s per case, confirmed alone under RLIMIT_CPU); peak live heap <= 8 MiB + 4096 x input length (counting allocator; oversized requests abort the worker and are confirmed alone under RLIMIT_AS). Non-trivial = >=1 corruption applied and permissive open accepted the input; distinct = distinct case JSON. Scenario steps: list-shaped sibling trees of up to 20000 entries on a 2 MiB stack; readers that claim up to 2^64-1 bytes (22 lengths around 2^32, the largest addressable file, 2^52, 2^63, 2^64 behind a small valid file), each probed alone in a child process under 60 CPU-s / 6 GiB with a 64 MiB heap bound. Thorough tier adds a libFuzzer campaign on the same oracle.",
         assumptions: &["the memory factor 4096 per input byte is derived from the format (one 4-byte DIFAT cell names a 4096-byte FAT sector, Vec growth x3), see DESIGN.md 2.5"],
         quick_cases: 6000,
         thorough_cases: 150000,
